@@ -11,6 +11,7 @@
 
 mod cksum;
 mod codec;
+mod fs;
 mod path;
 mod seg;
 mod txn;
@@ -95,6 +96,7 @@ fn main() {
         "path" => path::run(&opts, &mut out),
         "codec" => codec::run(&opts, &mut out),
         "udp" => udp::run(&opts, &mut out),
+        "fs" => fs::run(&opts, &mut out),
         "recv" => txn::run_recv(&opts, &mut out),
         "send" => txn::run_send(&opts, &mut out),
         other => {
